@@ -140,6 +140,21 @@ def scalar_ways(t, v, schema):
         ways['text'] = lambda: schema.clone(str(v[1]))
     elif k == 'bool':
         ways['bool'] = lambda: schema.clone(bool(v[1]))
+    elif k == 'real' and len(v) == 4 and v[2] == 2 and v[1] != 0 and abs(v[3]) < 500 and abs(v[1]) < 2 ** 200:
+        # the same number with the binary point elsewhere (what a BER sender using a scale factor or an even mantissa
+        # writes and the decoder hands over as is): mantissa times 2, 8, 16 with the exponent lowered, halved when even
+        m, e = v[1], v[3]
+        ways['mantissa*2'] = lambda: schema.clone((m * 2, 2, e - 1))
+        ways['mantissa*8'] = lambda: schema.clone((m * 8, 2, e - 3))
+        ways['mantissa*16'] = lambda: schema.clone((m * 16, 2, e - 4))
+        if m % 2 == 0:
+            ways['mantissa/2'] = lambda: schema.clone((m // 2, 2, e + 1))
+        # decoded from BER written with a scale factor / an even mantissa
+        mm = abs(m) * 4
+        body = bytes([0x80 | (0x40 if m < 0 else 0) | 0x00]) + (e - 2).to_bytes(1, 'big', signed=True) + mm.to_bytes((mm.bit_length() + 7) // 8, 'big') \
+            if -128 <= e - 2 < 128 else None
+        if body is not None and len(body) < 128:
+            ways['ber-even-mantissa'] = lambda: ber_decoder.decode(bytes([9, len(body)]) + body, asn1Spec=schema)[0]
     return ways
 
 
@@ -158,7 +173,7 @@ def check_default_scalar_initialisers(rep):
     whatever the initialiser was, on the first encoding and on the second"""
     grid = [('bits', '(bits 101)'), ('bits', '(bits 1)'), ('bits', '(bits 10100000)'), ('bits', '(bits 1111000010100101)'),
             ('bits', '(bits 0110)'), ('(str 4)', '(s 6162)'), ('oid', '(oid 1 3 6 1)'), ('int', '(i 5)'), ('int', '(i -70000)'),
-            ('bool', '(b true)'), ('bool', '(b false)')]
+            ('bool', '(b true)'), ('bool', '(b false)'), ('real', '(real 1 2 1)'), ('real', '(real -3 2 -2)'), ('real', '(real 6 2 0)')]
     for ts, ds in grid:
         for holder in ('seq', 'set'):
             t = sexp_types.ty_of_sexp(gen.parse_sexps('(%s (r (tag i c 0 int)) (d %s %s))' % (holder, ds, ts))[0])
